@@ -6,10 +6,10 @@ oracle_c15 — line protocol (sequential operations on one worker group):
   `new <map|lru> <cap> <workers>`                         → `ok`
   `get <k> <faults>` `del <k> <faults>`
   `add|upd|uoa|utl|utr <k> <v> <faults>`                  → `<ok:v|nil|err:dup|err:inj|err:nf|err:exists|panic> cb=<callbacks>`
-        faults: string over 0/1 (1 = that callback invocation fails), `-` = none
+        faults: string over 0/1/c (1 = that callback invocation fails, c = the caller's context is cancelled during it), `-` = none
   `peek <k>`    → `w<i>:<v>` for every worker cache holding k (`miss` if none)   (non-mutating)
   `store <k>`   → `<v>` | `none`
-  `stress <seed> <n>` → `done`   (concurrent mix on the real code, judged by monitors only)
+  `stress <seed> <n> -` / `pile <k> <m> -` → `done`   (concurrent mix / same-key pile-up on the real code, judged by monitors only)
 Configuration and worker kernel: `Nv.Gen.C15`.
 -/
 open Nv Nv.C15
@@ -34,10 +34,16 @@ def showCb : Cb → String
 
 def inInt64 (i : Int) : Bool := decide (-(2:Int)^63 ≤ i) && decide (i < (2:Int)^63)
 
-def parseFaults (s : String) : Option (List Bool) :=
-  if s == "-" then some []
+/-- fault tokens, one per callback invocation: `0` ok, `1` fails, `c` ok but the caller's context is cancelled while it
+runs.  The handlers do not look at the context, so `c` is no fault for the model; the caller, however, may then get
+its context's error instead of the result (its `select` has two ready cases). -/
+def parseFaults (s : String) : Option (List Bool × List Nat) :=
+  if s == "-" then some ([], [])
   else if s.length > 8 then none
-  else s.toList.mapM (fun c => if c == '0' then some false else if c == '1' then some true else none)
+  else
+    match s.toList.mapM (fun c => if c == '0' || c == 'c' then some false else if c == '1' then some true else none) with
+    | none => none
+    | some bs => some (bs, (s.toList.zipIdx.filter (fun p => p.1 == 'c')).map (·.2))
 
 def parseKey (s : String) : Option Int := match intOf s with
   | some i => if inInt64 i then some i else none
@@ -47,9 +53,15 @@ def parseVal (s : String) : Option Nat := match natOf s with
   | some v => if v < 1000 then some v else none
   | none => none
 
-def run (s : State) (op : Op) (f : List Bool) : St × String :=
-  let r := step Nv.Gen.C15.cfg Nv.Gen.C15.loc s (op, f)
-  (some r.1, s!"{showRes r.2.res} cb={",".intercalate (r.2.trace.map showCb)}")
+def run (s : State) (op : Op) (fc : List Bool × List Nat) : St × String :=
+  let r := step Nv.Gen.C15.cfg Nv.Gen.C15.loc s (op, fc.1)
+  let cbs := ",".intercalate (r.2.trace.map showCb)
+  let plain := s!"{showRes r.2.res} cb={cbs}"
+  -- cancelled during a callback that was actually invoked: the caller gets its result or its context's error
+  if fc.2.any (fun i => i < r.2.trace.length) then
+    let alt := s!"err:ctx cb={cbs}"
+    (some r.1, if alt ≤ plain then "{" ++ alt ++ "|" ++ plain ++ "}" else "{" ++ plain ++ "|" ++ alt ++ "}")
+  else (some r.1, plain)
 
 def peekAll (cs : List Cache) (k : Key) (i : Nat) : List String :=
   match cs with
@@ -69,6 +81,10 @@ def step1 (st : St) (line : String) : St × String :=
        if op == "get" then run s (.get k) f
        else if op == "del" then run s (.del k) f
        else (st, "bad-op")
+     | _, _, _ => (st, "bad-op"))
+  | ["pile", k, m, "-"] =>
+    (match st, parseKey k, natOf m with
+     | some _, some _, some m => if m ≤ 16 then (st, "done") else (st, "bad-op")
      | _, _, _ => (st, "bad-op"))
   | ["stress", seed, n, "-"] =>
     (match st, natOf seed, natOf n with
